@@ -152,6 +152,34 @@ Section HyperProofs.
         destruct (yfind (S h) ds pre _ kb k) as [v p]. exact Hnode.
   Qed.
 
+  (* a value returned by the prover is the value of an entry with exactly the queried key *)
+  Lemma yfind_value_in h : forall ds pre sub kb full w p,
+    yfind h ds pre (ybuild h ds pre sub) kb full = (Some w, p) -> exists kb', In (kb', (full, w)) sub.
+  Proof.
+    induction h as [|h IH]; intros ds pre sub kb full w p Hf.
+    - destruct sub as [|[kb0 [k0 v0]] rest]; cbn in Hf; [discriminate|].
+      destruct (key_eqb k0 full) eqn:Hk; [|discriminate]. apply key_eqb_eq in Hk. subst k0.
+      injection Hf as <- _. exists kb0. left. reflexivity.
+    - destruct sub as [|[kb0 [k0 v0]] rest]; [cbn in Hf; discriminate|].
+      assert (Hnode : forall l r x,
+                 l = ybuild h (tl ds) (pre ++ [false]) (child false ((kb0, (k0, v0)) :: rest)) ->
+                 r = ybuild h (tl ds) (pre ++ [true]) (child true ((kb0, (k0, v0)) :: rest)) ->
+                 yfind (S h) ds pre (TNode x l r) kb full = (Some w, p) ->
+                 exists kb', In (kb', (full, w)) ((kb0, (k0, v0)) :: rest)).
+      { intros l r x Hl Hr Hy. cbn [HyperModel.yfind] in Hy. destruct kb as [|b kb]; [discriminate|].
+        destruct b.
+        - destruct (yfind h (tl ds) (pre ++ [true]) r kb full) as [v' p'] eqn:Hr'. injection Hy as -> _.
+          rewrite Hr in Hr'. destruct (IH _ _ _ _ _ _ _ Hr') as [kb' Hin]. exists (true :: kb'). apply child_inv. exact Hin.
+        - destruct (yfind h (tl ds) (pre ++ [false]) l kb full) as [v' p'] eqn:Hl'. injection Hy as -> _.
+          rewrite Hl in Hl'. destruct (IH _ _ _ _ _ _ _ Hl') as [kb' Hin]. exists (false :: kb'). apply child_inv. exact Hin. }
+      cbn [HyperModel.ybuild] in Hf. destruct rest as [|e1 rest'].
+      + destruct (Nat.leb (S h) limit).
+        * cbn [HyperModel.yfind] in Hf. destruct (key_eqb k0 full) eqn:Hk; [|discriminate]. apply key_eqb_eq in Hk. subst k0.
+          injection Hf as <- _. exists kb0. left. reflexivity.
+        * exact (Hnode _ _ _ eq_refl eq_refl Hf).
+      + exact (Hnode _ _ _ eq_refl eq_refl Hf).
+  Qed.
+
   Lemma yfind_nodup h : forall ds pre t kb full v p,
     yfind h ds pre t kb full = (v, p) -> NoDup (map fst p).
   Proof.
